@@ -290,6 +290,15 @@ def check_search(doc, feats, order, style, ascii_, res):
                     v = ("parse:list-emptiness", f"hits.hits empty={want_empty} but parse says {got.get('hits.hits')!r}")
             if v:
                 break
+        # 1b. several flat objects extracted by one call (each keeps its own content)
+        if v is None:
+            objs = [o for o in ("_shards", "hits.total") if isinstance(lookup(full, o)[1] if lookup(full, o)[0] != "missing" else None, dict)]
+            if objs:
+                got = runner.parse(io.BytesIO(raw), ["took"], None, list(objs))
+                for o in objs:
+                    if got.get(o) != lookup(full, o)[1]:
+                        v = ("parse:flat-object", f"object {o} (requested together with {objs}): parse returned {got.get(o)!r}, full parse has {lookup(full, o)[1]!r}")
+                        break
         # 2. search_after cursor
         if v is None:
             want_sort = full["hits"]["hits"][-1].get("sort") if full["hits"]["hits"] else None
